@@ -79,8 +79,8 @@ def mergeOk (k : String) : Bool :=
     (fldTypes k).getD i 9 == 1 &&
     (List.range (fldTypes k).length).all (fun j => j == i || keys.contains j) &&
     (nq || !(cmpSchema k).hasQ) &&
-    (cmpSchema k).order.contains i
-  | some ⟨nq, _, none⟩ => (nq || !(cmpSchema k).hasQ) && (k == "userns" || (fldTypes k).isEmpty)
+    (cmpSchema k).order.contains i && !keys.contains i && keys.all (fun j => j < (fldTypes k).length)
+  | some ⟨nq, keys, none⟩ => (nq || !(cmpSchema k).hasQ) && (k == "userns" || (fldTypes k).isEmpty) && keys.isEmpty
   | none => true
 
 theorem mergeOk_all : ∀ k ∈ meaningKinds, mergeOk k = true := by decide
@@ -309,7 +309,7 @@ theorem mergeContract_plain (T : Tables) (r o r' : Rule)
         | none =>
           simp only [Option.some.injEq] at h
           simp only [Bool.and_eq_true, Bool.or_eq_true, beq_iff_eq, Bool.not_eq_true', List.isEmpty_iff] at hok
-          obtain ⟨hnq, hu⟩ := hok
+          obtain ⟨⟨hnq, hu⟩, _⟩ := hok
           have hq' : r.audit = o.audit ∧ r.accessType = o.accessType := by
             rcases hnq with hnq | hnq
             · subst hnq
@@ -342,7 +342,7 @@ theorem mergeContract_plain (T : Tables) (r o r' : Rule)
           simp only [Option.some.injEq] at h
           simp only [Bool.and_eq_true, beq_iff_eq, List.all_eq_true, List.mem_range, Bool.or_eq_true,
             List.contains_iff_mem, Bool.not_eq_true'] at hok
-          obtain ⟨⟨⟨hty, hcov⟩, hnq⟩, hord⟩ := hok
+          obtain ⟨⟨⟨⟨⟨hty, hcov⟩, hnq⟩, hord⟩, _⟩, _⟩ := hok
           have hp : permIdx r.kind = [i] := permIdx_of_schema hs hsc
           have hlen := length_of_shape hr.shape ho.shape hk
           have hi : i < r.flds.length := by
